@@ -257,6 +257,12 @@ def nesting_rule(m, rid, tier):
                     muts.append(("END repeated", lines[:k + 1] + [lines[k]] + lines[k + 1:], k))
             for k in opens:
                 muts.append(("opening statement deleted", lines[:k] + lines[k + 1:], k))
+            # the labelled statement that ends a `do <label> ...` loop
+            do_labels = {mo.group(1) for l in lines for mo in [re.match(r"\s*(?:\w+\s*:\s*)?do\s+(\d+)\b", l, re.I)] if mo}
+            for k, l in enumerate(lines):
+                mo = re.match(r"\s*(\d+)\s+\S", l)
+                if mo and mo.group(1) in do_labels:
+                    muts.append(("terminal statement of a labelled DO deleted", lines[:k] + lines[k + 1:], k))
             for k in named_ends:
                 muts.append(("END with another name", lines[:k] + [re.sub(r"(\w+)\s*$", r"other_\1", lines[k])] + lines[k + 1:], k))
             for k in parens:
